@@ -21,7 +21,7 @@ import (
 )
 
 const (
-	_SRT_MAX_HEADER_SIZE = 4 * 256
+	_SRT_MAX_HEADER_SIZE = 5 * 256
 )
 
 // SRT Sorted Ranks Transform
@@ -308,6 +308,12 @@ func (this SRT) decodeHeader(src []byte, freqs []int32) int {
 				val = int32(src[n])
 				n++
 				res |= ((val & 0x7F) << 21)
+
+				if val >= 128 {
+					val = int32(src[n])
+					n++
+					res |= ((val & 0x07) << 28)
+				}
 			}
 		}
 
